@@ -31,3 +31,20 @@ Theorem C05_complete_stream : forall frames fuel, Forall (fun f => frame_ok (fst
   (length frames < fuel)%nat -> parse_all fuel (emit_all frames) = (frames, PEnd).
 Proof. exact parse_all_emit. Qed.
 Print Assumptions C05_complete_stream.
+
+(* the same at the record level: a stream cut inside a frame delivers every record of the complete
+   frames before it (with the right values), then reports the truncation - never a partial record *)
+From Stef Require Import WireOk Reader Writer WireFactsBase WireFacts FrameContentFacts FrameContentInv StreamFactsBase StreamFacts.
+
+Theorem C05_records_of_complete_frames : forall sizes fuel t frames ws0 r0 kr k fl c n,
+  rd_tree r0 = t -> rd_left r0 = 0 ->
+  frame_ok fl c -> (0 < n)%nat -> (n < length (emit_frame fl c))%nat ->
+  rd_src r0 = SrcBytes (emit_all (stream_encode t ws0 frames) ++ firstn n (emit_frame fl c)) ->
+  carry ws0 (rd_st r0) -> acc_empty ws0 -> outside_default ws0 t ->
+  NoDup (tree_cols t) -> fc_ok t ->
+  stream_ok sizes fuel t frames ws0 (rd_rec r0) (rd_td r0) = true ->
+  (length frames < kr)%nat -> (length (concat (map snd frames)) < k)%nat ->
+  read_all sizes fuel kr k r0 =
+  (concat (map snd frames), stream_values t frames (rd_rec r0) (rd_td r0), Some (RdErr true EEof)).
+Proof. exact stream_roundtrip_bytes_cut. Qed.
+Print Assumptions C05_records_of_complete_frames.
